@@ -579,4 +579,242 @@ theorem cache_replace_full_fails_today : ¬ CacheSoundWithReplace := by
     rw [← validate_iff]; decide
   exact this (hv (by decide))
 
+/-! ### independence of the order of types -/
+
+private theorem find_iff (l : List TypeD) (hnd : (l.map (·.name)).Nodup) (n : String) (t : TypeD) :
+    l.find? (·.name == n) = some t ↔ t ∈ l ∧ t.name = n := by
+  induction l with
+  | nil => simp
+  | cons x xs ih =>
+    simp only [List.map_cons, List.nodup_cons] at hnd
+    simp only [List.find?_cons]
+    by_cases hx : (x.name == n) = true
+    · simp only [hx]
+      have hxn : x.name = n := by simpa using hx
+      constructor
+      · intro h; cases h; exact ⟨List.mem_cons_self .., hxn⟩
+      · rintro ⟨hm, hn⟩
+        rcases List.mem_cons.1 hm with rfl | hm
+        · rfl
+        · exact absurd (List.mem_map.2 ⟨t, hm, hn.trans hxn.symm⟩) hnd.1
+    · have hx' : (x.name == n) = false := by simpa using hx
+      simp only [hx']
+      rw [ih hnd.2]
+      constructor
+      · rintro ⟨hm, hn⟩; exact ⟨List.mem_cons_of_mem _ hm, hn⟩
+      · rintro ⟨hm, hn⟩
+        rcases List.mem_cons.1 hm with rfl | hm
+        · exact absurd (by simpa using hn) hx
+        · exact ⟨hm, hn⟩
+
+private theorem findType_perm (s s' : SchemaD) (hp : s'.types.Perm s.types)
+    (hnd : (s.types.map (·.name)).Nodup) : s'.findType = s.findType := by
+  funext n
+  have hnd' : (s'.types.map (·.name)).Nodup := (hp.map _).nodup_iff.2 hnd
+  apply Option.ext
+  intro t
+  simp only [SchemaD.findType]
+  rw [find_iff _ hnd', find_iff _ hnd, hp.mem_iff]
+
+private theorem typeOK_congr (s s' : SchemaD) (rv : Bool) (hl : s'.findType = s.findType)
+    (hd : s'.defaultResolver = s.defaultResolver) :
+    (∀ t, TypeOK s' rv t ↔ TypeOK s rv t) ∧ (kindOf s' = kindOf s) ∧
+      (∀ args, ArgsOK s' args ↔ ArgsOK s args) := by
+  have hk : kindOf s' = kindOf s := by funext n; simp [kindOf, hl]
+  have hi : isInputType s' = isInputType s := by funext t; simp [isInputType, hk]
+  have ho : isOutputType s' = isOutputType s := by funext t; simp [isOutputType, hk]
+  have hab : isAbstractTy s' = isAbstractTy s := by funext t; cases t <;> simp [isAbstractTy, hk]
+  have hob : isObjectTy s' = isObjectTy s := by funext t; cases t <;> simp [isObjectTy, hk]
+  have hpo : isPossibleType s' = isPossibleType s := by
+    funext a b; cases a <;> cases b <;> simp [isPossibleType, hl]
+  have hit : ∀ k, subIter s' k = subIter s k := by
+    intro k; induction k with
+    | zero => rfl
+    | succ k ih => simp [subIter, hab, hob, hpo, ih]
+  have hS : ∀ a b, Subtype s' a b ↔ Subtype s a b := by
+    intro a b; rw [← subtype_iff, ← subtype_iff]; simp [isSubtype, hit]
+  have hp : pickResolver s' = pickResolver s := by funext t f; simp [pickResolver, hd]
+  refine ⟨?_, ?_, ?_⟩
+  · intro t
+    unfold TypeOK FieldsOK InterfacesOK UnionOK InputOK ArgsOK ResolverOK Implements
+    simp only [hk, hi, ho, hS, hp, hl]
+  · exact hk
+  · intro args; unfold ArgsOK; simp only [hi]
+
+/-- **Order of types.** Two descriptions that list the same types in a different order (names unique,
+    as in `schema.types`) and agree on everything else get the same verdict. -/
+theorem perm_types (s s' : SchemaD) (rv : Bool) (hp : s'.types.Perm s.types)
+    (hnd : (s.types.map (·.name)).Nodup)
+    (hdir : s'.directives = s.directives) (hq : s'.query = s.query) (hm : s'.mutation = s.mutation)
+    (hsub : s'.subscription = s.subscription) (hd : s'.defaultResolver = s.defaultResolver) :
+    validate s' rv = [] ↔ validate s rv = [] := by
+  rw [validate_iff, validate_iff]
+  obtain ⟨ht, hr, ha⟩ := typeOK_congr s s' rv (findType_perm s s' hp hnd) hd
+  unfold ValidSchema DirectivesOK
+  have hr' : RootsOK s' ↔ RootsOK s := by
+    unfold RootsOK RootOK; rw [hq, hm, hsub, hr]
+  rw [hr', hdir]
+  simp only [ht, ha, hp.mem_iff]
+
+/-! ### all violations are reported together -/
+
+/-- **Never stops at the first error (top level).** Every error of the root-type check, of EVERY type of
+    the schema and of the directive check is part of the report, whatever else is wrong. -/
+theorem reports_all (s : SchemaD) (rv : Bool) :
+    (∀ e ∈ validateRootTypes s, e ∈ validate s rv) ∧
+    (∀ t ∈ s.types, ∀ e ∈ validateType s rv t, e ∈ validate s rv) ∧
+    (∀ e ∈ validateDirectives s, e ∈ validate s rv) := by
+  refine ⟨?_, ?_, ?_⟩
+  · intro e he; simp [validate, he]
+  · intro t ht e he
+    simp only [validate, List.mem_append, List.mem_flatMap]
+    exact Or.inl (Or.inr ⟨t, ht, he⟩)
+  · intro e he; simp [validate, he]
+
+private theorem forSeen_mem_first {α} (key : α → String) (step : α → Bool → List Err × Bool)
+    (x : α) (post : List α) (e : Err) (he : e ∈ (step x false).1) :
+    ∀ (pre : List α) (seen : List String), key x ∉ seen → key x ∉ pre.map key →
+      e ∈ forSeen key step (pre ++ x :: post) seen := by
+  intro pre
+  induction pre with
+  | nil =>
+    intro seen hs _
+    simp [forSeen, hs, he]
+  | cons y ys ih =>
+    intro seen hs hp
+    simp only [List.map_cons, List.mem_cons, not_or] at hp
+    simp only [List.cons_append, forSeen, List.mem_append]
+    refine Or.inr (ih _ ?_ hp.2)
+    split
+    · intro hm
+      rcases List.mem_cons.1 hm with h | h
+      · exact hp.1 h
+      · exact hs h
+    · exact hs
+
+/-- **Never stops at the first error (members).** In an object or interface type whose name passed, the
+    name check and every check of the body (output type, each argument, resolver signature) of EVERY
+    field (first occurrence of its name) is reported — whatever is wrong with the fields before it. -/
+theorem field_errors_reported (s : SchemaD) (rv : Bool) (t : TypeD) (ht : t ∈ s.types)
+    (hname : (t.builtin || isValidName t.name) = true) (hk : t.kind = .object ∨ t.kind = .interface)
+    (pre post : List FieldD) (f : FieldD) (hf : t.fields = pre ++ f :: post)
+    (hfirst : f.name ∉ pre.map (·.name)) :
+    ∀ e ∈ checkValidName f.name ++ fieldBody s rv t f, e ∈ validate s rv := by
+  intro e he
+  refine (reports_all s rv).2.1 t ht e ?_
+  have hmem : e ∈ validateFields s rv t := by
+    unfold validateFields
+    rw [hf]
+    refine List.mem_append.2 (Or.inr ?_)
+    refine forSeen_mem_first (·.name) _ f post e ?_ pre [] (by simp) hfirst
+    simpa using he
+  unfold validateType
+  rw [hname]
+  rcases hk with hk | hk <;> simp [hk, hmem]
+
+/-- **Never stops at the first error (implementations).** For every interface an object type lists (first
+    occurrence), the check of EVERY interface field is reported: missing field, non-covariant type,
+    or each missing / retyped / extra required argument. -/
+theorem implementation_errors_reported (s : SchemaD) (rv : Bool) (t it : TypeD) (ht : t ∈ s.types)
+    (hname : (t.builtin || isValidName t.name) = true) (hk : t.kind = .object)
+    (pre post : List String) (i : String) (hi : t.interfaces = pre ++ i :: post) (hfirst : i ∉ pre)
+    (hit : s.findType i = some it) (hik : it.kind = .interface)
+    (f : FieldD) (hf : f ∈ it.fields) :
+    ∀ e ∈ implFieldErr s t it f, e ∈ validate s rv := by
+  intro e he
+  refine (reports_all s rv).2.1 t ht e ?_
+  have hmem : e ∈ validateInterfaces s t := by
+    unfold validateInterfaces
+    rw [hi]
+    refine forSeen_mem_first id _ i post e ?_ pre [] (by simp) (by simpa using hfirst)
+    simp [interfaceStep, hit, hik, validateImplementation]
+    exact ⟨f, hf, he⟩
+  unfold validateType
+  rw [hname]
+  simp [hk, hmem]
+
+/-! ### names -/
+
+/-- the pattern is anchored with `\Z` (fix S7): no trailing-newline loophole -/
+theorem name_anchor_strict : nameDollarQuirk = false := by decide
+
+private theorem nameStart_spec (c : Nat) : nameStart c = true ↔ (c = 95 ∨ isLetter c = true) := by
+  simp [nameStart, isLetter]; omega
+
+private theorem nameCont_spec (c : Nat) : nameCont c = true ↔ (c = 95 ∨ isLetter c = true ∨ isDigit c = true) := by
+  simp [nameCont, isLetter, isDigit]; omega
+
+/-- **Names.** `VALID_NAME_RE` (character classes extracted from the source) accepts exactly the
+    grammar's `Name`s that do not start with two underscores. -/
+theorem name_iff (cs : List Nat) : matchName cs = true ↔ NameOK cs := by
+  unfold matchName NameOK
+  have hq : nameForbiddenPrefix = [95, 95] := by decide
+  rw [hq]
+  cases cs with
+  | nil => simp
+  | cons c rest =>
+    simp only [name_anchor_strict, Bool.false_and, Bool.false_eq_true, if_false, Bool.and_eq_true,
+      Bool.not_eq_true', List.all_eq_true, nameStart_spec, nameCont_spec]
+    constructor
+    · rintro ⟨hp, hs, hc⟩
+      refine ⟨⟨c, rest, rfl, hs, hc⟩, ?_⟩
+      intro hpre
+      have : List.isPrefixOf [95, 95] (c :: rest) = true := List.isPrefixOf_iff_prefix.2 hpre
+      rw [this] at hp; exact absurd hp (by simp)
+    · rintro ⟨⟨c', rest', heq, hs, hc⟩, hp⟩
+      cases heq
+      refine ⟨?_, hs, hc⟩
+      cases hpre : List.isPrefixOf [95, 95] (c :: rest) with
+      | false => rfl
+      | true => exact absurd (List.isPrefixOf_iff_prefix.1 hpre) hp
+
+/-! ### extracted tables -/
+
+/-- every call site the model can produce is an `add_error` call site found in the source today -/
+theorem model_rules_extracted :
+    (Rule.all.all fun r => (ruleFormats.map (·.1)).contains r.id) = true := by decide
+
+/-- the proposed fix C13-S4-S6 is in the tree the theorems were checked against -/
+theorem fix_present : fixS4S6 = true := by decide
+
+/-! ### defect S4 (before the fix) and non-vacuity -/
+
+private def exInt : TypeD := { kind := .scalar, name := "Int", builtin := true }
+/-- `type A{a:Int} type Query implements A{a:Int}` -/
+private def exS4 : SchemaD :=
+  { types := [exInt,
+      { kind := .object, name := "A", fields := [{ name := "a", type := .named "Int" }] },
+      { kind := .object, name := "Query", interfaces := ["A"], fields := [{ name := "a", type := .named "Int" }] }] }
+
+/-- S4 (fixed behaviour): implementing a non-interface is rejected, with its own rule -/
+theorem s4_rejected : validate exS4 true = [⟨.notInterface, ["Query", "A"]⟩] := by decide
+
+private def exRes : ResolverD :=
+  { params := [{ name := "root" }, { name := "ctx" }, { name := "info" }, { name := "x", hasDefault := true },
+               { name := "kw", kind := .varKw }] }
+private def exRes2 : ResolverD :=
+  { params := [{ name := "root" }, { name := "ctx" }, { name := "kw", kind := .varKw }] }
+
+private def exIfaceF : FieldD := { name := "f", type := .list (.named "I"), args := [{ name := "x", type := .named "Int" }] }
+private def exObjF : FieldD := { name := "f", type := .nonNull (.list (.nonNull (.named "Query"))), args := [{ name := "x", type := .named "Int" }, { name := "y", type := .named "Int" }], resolver := some exRes }
+private def exGood : SchemaD :=
+  { types := [exInt, { kind := .interface, name := "I", fields := [exIfaceF] },
+              { kind := .object, name := "Query", interfaces := ["I"], fields := [exObjF] }] }
+
+example : ValidSchema exGood true := (validate_iff _ _).1 (by decide)
+example : Subtype exGood (.nonNull (.list (.nonNull (.named "Query")))) (.list (.named "I")) :=
+  (subtype_iff _ _ _).1 (by decide)
+example : ¬ Subtype exGood (.list (.named "Query")) (.list (.nonNull (.named "I"))) := by
+  rw [← subtype_iff]; decide
+/-- two violations in two different types are both reported -/
+example : (validate { exGood with types := exGood.types ++
+    [{ kind := .union, name := "U" }, { kind := .enum, name := "__E", values := [{ name := "V" }] }] } true).map (·.rule)
+    = [.unionEmpty, .invalidTypeName] := by decide
+/-- a cache history: validate, register a resolver with 2 positional parameters, validate again -/
+example : runTrace { schema := exGood } [.validate,
+    .registerResolver "Query" "f" exRes2 true false,
+    .validate] = [.ok, .ok, .validationError] := by decide
+example : CacheInv { schema := exGood, isValid := false } := cacheInv_init _
+example : matchName [95, 97] = true ∧ matchName [95, 95, 97] = false ∧ matchName [97, 10] = false := by decide
+
 end PyGql.Props.C13
